@@ -213,6 +213,10 @@ def run_path(repo, registry, func: VFunc, contract, prefix, feas_ms):
         if "requires" in contract.funcs:
             pre = it.truthy(it.eval_contract_fn(contract, "requires", dict(bound)))
             path.assume(pre)
+        for rn in sorted(n for n in contract.funcs if n.startswith("requires_")):
+            # additional entry conditions of a refinement check (Sub.m@iface): the subclass'
+            # representation invariant, stated where the refinement is declared
+            path.assume(it.truthy(it.eval_contract_fn(contract, rn, dict(bound))))
         for dn in sorted(n for n in contract.funcs if n.startswith("define_")):
             # definition of a ghost symbol that occurs nowhere else (a conservative extension):
             # lets an inner formula be named and used atomically by the outer invariants
@@ -246,6 +250,14 @@ def run_path(repo, registry, func: VFunc, contract, prefix, feas_ms):
                 tag = "ret"
             if gen:
                 result = fr.yielded
+                if result.items is not None and fr.yield_kind() is not None:
+                    # a generator that yielded a fixed number of values on this path: viewed as a
+                    # sequence of the declared kind, so that the postcondition may index it symbolically
+                    tmpl = vals.fresh("list[" + fr.yield_kind() + "]", "tmpl")
+                    if result.items:
+                        result = vals.coerce(VList(items=[it.dataify(x) for x in result.items]), tmpl)
+                    else:
+                        result = VList(z3.IntVal(0), vals.lift_const(vals.dummy_like(vals.sel(tmpl.elem, z3.IntVal(0))), INT))
             outcome = ("normal", result)
         except RaiseSignal as rs:
             outcome = ("raise", rs.exc)
